@@ -173,6 +173,29 @@ pub fn drive_c12(a: &Args, out: &mut Out) {
         let ops = similar::capture_diff_slices(similar::Algorithm::Myers, &x, &y);
         emit_group(&ops, rng.below(5), out);
     }
+    // huge, nearly identical token lists through TextDiff::grouped_ops (beyond 2^24 tokens per side
+    // the f32 similarity ratio of a diff with a handful of changes rounds to exactly 1.0): only
+    // the ops and the groups are recorded - grouping is a statement about op lists
+    if a.get("huge", "1") == "1" {
+        let m = (1usize << 24) + 3 + 4 * rng.below(250); // m % 4 == 3: 2m rounds up to 2m + 2 in f32
+        let (a_, x_, y_) = ("a\n", "x\n", "y\n");
+        let mut old: Vec<&str> = Vec::with_capacity(m + 1);
+        old.push(x_);
+        old.resize(m + 1, a_);
+        let mut new: Vec<&str> = vec![a_; m];
+        new.push(y_);
+        let n = rng.range(1, 4);
+        let case = out.next_case();
+        let r = rec::guarded(|| {
+            let diff = similar::TextDiff::from_slices(&old, &new);
+            (diff.ops().to_vec(), diff.grouped_ops(n))
+        });
+        match r {
+            Some((ops, groups)) => out.emit(&json!({"ev":"group","case":case,"ops":ops_json(&ops),"n":n,"panic":false,
+                "via":"grouped_ops_huge","groups": Value::Array(groups.iter().map(|g| ops_json(g)).collect())})),
+            None => out.emit(&json!({"ev":"group","case":case,"ops":[],"n":n,"panic":true,"groups":[]})),
+        }
+    }
     // the other entry points of grouping: Capture::into_grouped_ops and TextDiff::grouped_ops
     for i in 0..nrand / 10 {
         let (x, y) = gen::random_pair(&mut rng, 30);
@@ -220,6 +243,28 @@ pub fn expand_record(old: &[u32], new: &[u32], op: &DiffOp, case: i64) -> Value 
             .iter_slices(old, new)
             .map(|(t, s)| json!([tagnum(t), seq_json(s)]))
             .collect();
+        // the expansion consumed through other Iterator methods (small ops only): skip(k) for every
+        // k, nth(k) followed by the rest, step_by(2), count, last, size_hint
+        let total = changes.len();
+        let mut via: Vec<Value> = vec![];
+        if total <= 12 {
+            for k in 0..=total {
+                let v: Vec<Value> = op.iter_changes(old, new).skip(k).map(|c| change_json(&c)).collect();
+                via.push(json!(["skip", k, v]));
+                let mut it = op.iter_changes(old, new);
+                let first = it.nth(k).map(|c| change_json(&c));
+                let mut v: Vec<Value> = first.into_iter().collect();
+                v.extend(it.map(|c| change_json(&c)));
+                via.push(json!(["nth", k, v]));
+            }
+            let v: Vec<Value> = op.iter_changes(old, new).step_by(2).map(|c| change_json(&c)).collect();
+            via.push(json!(["step2", 0, v]));
+            via.push(json!(["count", op.iter_changes(old, new).count(), []]));
+            let v: Vec<Value> = op.iter_changes(old, new).last().map(|c| change_json(&c)).into_iter().collect();
+            via.push(json!(["last", 0, v]));
+            let (lo, hi) = op.iter_changes(old, new).size_hint();
+            via.push(json!(["size_hint", lo, [hi.map(|h| h as i64).unwrap_or(-1)]]));
+        }
         let mut cap = Capture::new();
         op.apply_to_hook(&mut cap).unwrap();
         // the same with the capturing hook passed by reference (D = &mut Capture)
@@ -228,12 +273,12 @@ pub fn expand_record(old: &[u32], new: &[u32], op: &DiffOp, case: i64) -> Value 
             let mut by_ref = &mut cap2;
             op.apply_to_hook(&mut by_ref).unwrap();
         }
-        (changes, slices, cap.into_ops(), cap2.into_ops())
+        (changes, slices, cap.into_ops(), cap2.into_ops(), via)
     });
     match r {
-        Some((changes, slices, re, re2)) => json!({"ev":"expand1","case":case,"old":seq_json(old),"new":seq_json(new),
+        Some((changes, slices, re, re2, via)) => json!({"ev":"expand1","case":case,"old":seq_json(old),"new":seq_json(new),
             "op":op_json(op),"panic":false,"changes":changes,"slices":slices,"reapplied":ops_json(&re),
-            "reapplied_ref":ops_json(&re2)}),
+            "reapplied_ref":ops_json(&re2),"via":via}),
         None => json!({"ev":"expand1","case":case,"old":seq_json(old),"new":seq_json(new),
             "op":op_json(op),"panic":true,"changes":[],"slices":[],"reapplied":[],"reapplied_ref":[]}),
     }
